@@ -35,6 +35,7 @@ func TestVerifSim(t *testing.T) {
 		Assumptions: []string{"testing/synctest fake clock and quiescence semantics (go1.26.8)",
 			"a delivery step never completes more than one frame, waking a blocked writer is a separate step, and at most one operation is started per step, so intra-step goroutine races in real code do not decide outcomes (explored interleavings are at simulator-event granularity)",
 			"one deliberate exception: the cancel+deliver action cancels a call and releases the rest of its own response frame inside one step (cancel first: the cancellation wins deterministically while Complete(id) still runs before the caller's Delete at GOMAXPROCS=1; deliver first: the Go runtime picks, and that call is logged by the neutral class ok|canceled). A deadline firing at the very instant of a delivery is not constructed",
+			"client and server write-queue limits are drawn per run (server items 1-3 or default, server bytes 48/600 or default); in runs where the server may refuse a response every call carries a deadline, because the repo drops such a response without telling the caller. The answer+wspace action lets the blocked server writer resume the moment a response is refused (the refusal is seen through the server's observer event), which is deterministic on the unchanged tree; whether code that re-offers the response then finds room is exact only at GOMAXPROCS=1",
 			"at most one operation at a time is inside a pool slot's dial (no concurrent waiters on one dial)",
 			"header faults are the malformed-header classes of the statement (magic, version, flags, reserved, kind, priority, oversize body); corruption that yields another valid header is out of scope",
 			"header round-trip is checked only for the headers this traffic produces (kinds data/notify/request/response, 4 priorities, 3 service ids, body lengths 0..MaxFrameBodyBytes)"},
